@@ -74,6 +74,8 @@ def _supported(backend):
 
 def expected_class(backend, solver, vectorize, delay, sparse=False, jac=False):
     """'raises' | 'returns' from the code's own declarations and the property text"""
+    if backend not in ('default', 'numpy', 'torch', 'jax', 'fortran', 'julia', 'matlab'):
+        return 'raises'            # a backend that does not exist is not supported
     cls = _supported(backend)
     if vectorize and backend == 'fortran':
         return 'raises'
@@ -357,6 +359,11 @@ def run(tier='quick', seed=0, only=None, verbose=False):
             if b != 'fortran':
                 for d in POP_KINDS:
                     cells.append(dict(key=f"cell:{b}:{s}:vec=True:{d}", backend=b, solver=s, vectorize=True, delay=d))
+    # backend names that do not exist (one of them a former PyRates backend)
+    for b in ('tensorflow', 'nunpy'):
+        for v in (True, False):
+            cells.append(dict(key=f"cell:{b}:euler:vec={v}:none", backend=b, solver='euler', vectorize=v, delay='none'))
+    for b in BACKENDS:
         for sp in (False, True):
             for v in (True, False):
                 for d in ('none', 'past'):
